@@ -13,6 +13,13 @@ def prepare_text_for_dbml(text: str) -> str:
     return pattern.sub(r'\\\1', text)
 
 
+def name_to_dbml(name: str) -> str:
+    '''Double-quote a name unless it is a plain word'''
+    if re.fullmatch(r'[A-Za-z0-9_]+', name):
+        return name
+    return f'"{name}"'
+
+
 def quote_string(text: str) -> str:
     if '\n' in text:
         return f"'''\n{prepare_text_for_dbml(text)}'''"
